@@ -544,7 +544,8 @@ func c20Sends(l []verifSent, keep func(p c20Parsed) bool) string {
 		if !s.Ok {
 			r = "fail"
 		}
-		out = append(out, strings.TrimPrefix(s.Peer, "n")+":"+r)
+		// the mock's name is n<peer> (a second sender to the same peer: n<peer>b)
+		out = append(out, strings.TrimSuffix(strings.TrimPrefix(s.Peer, "n"), "b")+":"+r)
 	}
 	sort.Strings(out)
 	return c20Join(out)
@@ -759,6 +760,40 @@ func c20Scenario(w *bufio.Writer, r *verifRng, scratch string, k int) {
 		}
 		fmt.Fprintf(w, "fwd %s %s %d %s %d\n", c20Join(tab), c20Clas(c), dst, sends, released)
 	}
+}
+
+// c20TwoSenders: two convergence senders to one peer (two addresses, one endpoint ID) and one to another peer: the
+// node's own broadcast goes ONCE to every peer.
+func c20TwoSenders(w *bufio.Writer, r *verifRng, scratch string, k int) {
+	dir := fmt.Sprintf("%s/c20two%d", scratch, k)
+	c, err := verifNewCore(dir, "dtn://n0/", RoutingConf{Algorithm: "dtlsr",
+		DTLSRConf: DTLSRConfig{RecomputeTime: "1h", BroadcastTime: "1h", PurgeTime: "1h"}})
+	if err != nil {
+		fmt.Fprintf(w, "# core error %v\n", err)
+		return
+	}
+	defer func() { c.Close(); _ = os.RemoveAll(dir) }()
+	d := c.routing.(*DTLSR)
+	net := &verifNet{}
+	a := net.newCLA("n1", c20Eid(1), true)
+	b := net.newCLA("n1b", c20Eid(1), true)
+	other := net.newCLA("n2", c20Eid(2), true)
+	if k%2 == 1 {
+		other.setScript(false)
+	}
+	verifPeerUp(c, a)
+	verifPeerUp(c, b)
+	verifPeerUp(c, other)
+	net.drain(false)
+	d.broadcastCron()
+	ownBcast := func(p c20Parsed) bool { return p.bcast && p.src == "0" }
+	var steps []string
+	steps = append(steps, c20Clas(c)+"|"+c20Sends(net.drain(false), ownBcast))
+	for i := 0; i < 2; i++ {
+		c.checkPendingBundles()
+		steps = append(steps, c20Clas(c)+"|"+c20Sends(net.drain(false), ownBcast))
+	}
+	fmt.Fprintf(w, "bc - %s\n", strings.Join(steps, ";"))
 }
 
 // ---- entry -----------------------------------------------------------------------------------
@@ -1103,5 +1138,8 @@ func TestVerifC20(t *testing.T) {
 	_ = w.Flush()
 	for k := 0; k < nSc; k++ {
 		c20Scenario(w, r, scratch, k)
+		if k < 2 {
+			c20TwoSenders(w, r, scratch, k)
+		}
 	}
 }
